@@ -479,7 +479,8 @@ func (g *genState) genForProgram(p *Prog, allLabels []string, n int, pending []I
 					{"----------------------------", "2 imps and a stone, disabled for now", "(see the notes)"}, {"1, 2, 3", "#$@ !!", "mov mov mov"},
 					{";assert 0", "dat 0"}, {";assert CORESIZE == 1", ";assert undefined_in_dead_code"}, {"x equ 1/0", "org 99999"}}[r.Intn(10)]
 				if Legacy {
-					f.Dead = [][]string{{"end"}, {" END 2"}, {"end", "dat 1, 2"}, {"mov 0, 1", " end"}, {"dat undefined_in_dead_code"}}[r.Intn(5)]
+					f.Dead = [][]string{{"end"}, {" END 2"}, {"end", "dat 1, 2"}, {"mov 0, 1", " end"}, {"dat undefined_in_dead_code"},
+						{"----------------------------", "2 imps and a stone, disabled for now", "(see the notes)"}, {"1, 2, 3", "mov mov mov"}}[r.Intn(7)]
 				}
 				if r.Intn(3) == 0 {
 					// a lot of old code fenced off (more lines than a small core has cells)
